@@ -26,7 +26,7 @@ import time
 from concurrent.futures import ThreadPoolExecutor
 
 sys.path.insert(0, os.path.dirname(os.path.dirname(os.path.abspath(__file__))))
-from mbv import tlc                                   # noqa: E402
+from mbv import build, tlc                            # noqa: E402
 from mbv.harness import Check, MachineryError, main   # noqa: E402
 
 TYPES = ['double', 'float', 'int', 'long', 'unsigned int']
@@ -144,7 +144,51 @@ def gen_systematic(quick):
     for i, arrays in enumerate(multi):
         cases.append(mk_case('sysm:%d' % i, arrays,
                              dict(t=3, dt=1, count=0), bytes_keys=True))
+    cases += gen_const_lists()
     return cases
+
+
+def gen_const_lists():
+    """Lists of 2-3 arrays where every array has its own constants: disjoint
+    names, the same name with different values / lengths / C types, an array
+    without constants before, between and after arrays with constants; each
+    array also has its own output list (proper subset of its properties)."""
+    def arr(name, n, fr, consts, outs, tags=None):
+        props = [dict(name='x', type='double', stride=1, default=None,
+                      data=fr(n)),
+                 dict(name='m', type='float', stride=1, default=3,
+                      data=fr(n))]
+        return mk_array(name, n, tags if tags is not None else [0] * n, props,
+                        consts=consts, outs=outs)
+
+    def c(data, dtype='float64'):
+        return dict(data=data, dtype=dtype)
+    lists = []
+    fr = Fresh()
+    # the same name, different values (fluid.rho0 = 1000, solid.rho0 = 2500)
+    lists.append([arr('fluid', 2, fr, {'rho0': c([1000]), 'c0': c([10])},
+                      ['x']),
+                  arr('solid', 3, fr, {'rho0': c([2500]),
+                                       'cm': c([4, 2, 1])}, ['m', 'tag']),
+                  arr('wall', 1, fr, {}, [])])
+    # disjoint names
+    lists.append([arr('a', 1, fr, {'c1': c(fr(1))}, ['x', 'm']),
+                  arr('b', 2, fr, {'c2': c(fr(2), 'int64')}, ['x'],
+                      tags=[0, 2])])
+    # array without constants first / in the middle; same name, other length
+    # and C type
+    lists.append([arr('z', 0, fr, {}, ['x']),
+                  arr('m', 2, fr, {'k': c([7, 8, 9])}, []),
+                  arr('a', 1, fr, {'k': c([5], 'int64')}, ['m'])])
+    lists.append([arr('p', 2, fr, {'k': c([1, 2], 'float32')}, ['x']),
+                  arr('q', 2, fr, {}, ['x', 'tag'], tags=[0, 1]),
+                  arr('r', 2, fr, {'k': c([1, 3], 'float32'),
+                                   'j': c([6])}, ['m'])])
+    # identical constants in both arrays (must stay, in both)
+    lists.append([arr('u', 1, fr, {'g': c([9, 9])}, ['x']),
+                  arr('v', 1, fr, {'g': c([9, 9])}, ['x'])])
+    return [mk_case('sysc:%d' % i, arrays, dict(t=64 + i, dt=2, count=i),
+                    bytes_keys=True) for i, arrays in enumerate(lists)]
 
 
 def gen_random(seed, idx):
@@ -201,6 +245,36 @@ def gen_random(seed, idx):
     sd = dict(t=rng.randint(0, 4096), dt=rng.randint(1, 64),
               count=rng.randint(0, 1000))
     return mk_case(cid, arrays, sd, bytes_keys=rng.random() < 0.3)
+
+
+SRC_FILES = ('solver/output.py', 'solver/utils.py', 'base/utils.py',
+             'base/particle_array.pyx')
+
+
+def check_sources(outs):
+    """The drivers must have imported the sources of the tree under
+    verification (build.REPO).  The build cache is keyed by the extension
+    sources only, so a concurrent run on another tree with the same
+    extensions can re-synchronise the Python files under a running check;
+    a verdict about the wrong tree is a machinery failure, not a verdict."""
+    want = {}
+    for f in SRC_FILES:
+        with open(os.path.join(build.REPO, 'pysph', f), 'rb') as fp:
+            want[f] = hashlib.sha1(fp.read()).hexdigest()
+    for of in outs:
+        if not os.path.exists(of + '.src'):
+            raise MachineryError('driver left no source record: %s' % of)
+        for line in open(of + '.src'):
+            rec = json.loads(line)
+            for when in ('start', 'end'):
+                bad = sorted(f for f in SRC_FILES if rec[when][f] != want[f])
+                if bad:
+                    raise MachineryError(
+                        'the driver did not run the sources of %s (%s differ '
+                        'at driver %s): the build cache was re-synchronised '
+                        'from another tree while the check ran; re-run '
+                        'without concurrent checks on another tree (or with '
+                        'a private VERIF_CACHE)' % (build.REPO, bad, when))
 
 
 def crash_record(case, ci, rc):
@@ -263,14 +337,17 @@ def check(chk):
         cases = [obj['desc']]
     else:
         design = tlc.run('OutputMC', 'OutputMC.cfg', workers=16, timeout=900)
-        asis = tlc.run('OutputMC', 'OutputMC.asis.cfg', workers=16,
-                       timeout=900)
+        if not quick:
+            asis = tlc.run('OutputMC', 'OutputMC.asis.cfg', workers=16,
+                           timeout=900)
         for r in (design, asis):
+            if r is None:
+                continue
             if r.get('error') or r.get('timeout'):
                 raise MachineryError('TLC design run failed:\n' +
                                      r['out'][-3000:])
         cases = gen_systematic(quick)
-        nrand = 260 if quick else 4200
+        nrand = 200 if quick else 4200
         cases += [gen_random(chk.seed, i) for i in range(nrand)]
     desc = {c['id']: c for c in cases}
     phases['design_tlc_s'] = round(time.time() - t0, 1)
@@ -279,6 +356,7 @@ def check(chk):
     chunks = [(w, c) for w, c in enumerate(chunks) if c]
     with ThreadPoolExecutor(max_workers=NWORK) as ex:
         outs = list(ex.map(lambda wc: drive(chk, wc[1], wc[0]), chunks))
+    check_sources(outs)
     phases['drive_real_code_s'] = round(time.time() - t0, 1)
     t0 = time.time()
     traces = {}
@@ -360,8 +438,11 @@ def check(chk):
                     chk.known_hit(fid)
                     ksample.setdefault(fid, dict(id=v['id'], options=opts))
                 else:
-                    chk.violation('%s: signature of %s, which is not listed '
-                                  'as known' % (opts, fid), replay)
+                    chk.violation(
+                        '%s: round trip breaks %s (the failure has the '
+                        'signature of %s, which is not an accepted known '
+                        'finding - recorded as fixed: regression)' % (
+                            opts, sorted(v['failed']), fid), replay)
             if sample is None and not v['failed'] and v['nvalues'] > 6 \
                     and v['nnotstored'] > 0 and t['fmt'] == 'hdf5':
                 sample = dict(id=v['id'], options=opts, arrays=d['arrays'],
@@ -375,15 +456,15 @@ def check(chk):
         v = verdicts[0]
         sample = dict(id=v['id'], verdict=v)
     chk.cov.update(dict(
-        states=(design['distinct'] + asis['distinct']) if design
-        else st['distinct'],
-        transitions=(design['generated'] + asis['generated']) if design
-        else st['generated'],
-        design_model='OutputMC.tla: OutputMC.cfg (repaired reader, invariant '
-                     'RoundTrip) %s states + OutputMC.asis.cfg (hdf5 reader '
-                     'as implemented, invariant AsIsClassified) %s states' % (
+        states=design['distinct'] if design else st['distinct'],
+        transitions=design['generated'] if design else st['generated'],
+        design_model='OutputMC.tla / OutputMC.cfg (writer and reader as '
+                     'fixed; invariants StoredAsSpecified, RoundTripHolds, '
+                     'NotStoredAreDefault): %s distinct states%s' % (
                          design['distinct'] if design else '-',
-                         asis['distinct'] if asis else '-'),
+                         '; OutputMC.asis.cfg (hdf5 reader before the fixes;'
+                         ' invariant AsIsClassified): %d distinct states' %
+                         asis['distinct'] if asis else ''),
         phases=phases,
         design_exhaustive=True,
         array_lists=len(cases),
